@@ -318,6 +318,7 @@ type cdcResp struct {
 	ReencErr string `json:"reenc_err,omitempty"`
 	Alloc    uint64 `json:"alloc"` // bytes allocated by the Decode call alone
 	Pass     int    `json:"pass"`  // 0 = outcome of decoding Data, 1 = outcome of decoding Data‖Junk
+	Sys      uint64 `json:"sys"`   // memory the worker has mapped from the OS so far (never shrinks in Go)
 	// set by the parent:
 	Died string `json:"died,omitempty"` // non-empty: the worker process ended while handling the request
 }
@@ -335,6 +336,7 @@ func cdcWorkerMain() {
 	// answers go to fd 3 so that anything the repository prints to stdout cannot corrupt the framing
 	out := bufio.NewWriterSize(os.NewFile(3, "answers"), 1<<20)
 	sample := []metrics.Sample{{Name: "/gc/heap/allocs:bytes"}}
+	sysSample := []metrics.Sample{{Name: "/memory/classes/total:bytes"}}
 	for {
 		var hdr [4]byte
 		if _, err := io.ReadFull(in, hdr[:]); err != nil {
@@ -400,6 +402,8 @@ func cdcWorkerMain() {
 				}
 			}
 		}
+		metrics.Read(sysSample)
+		resp.Sys = sysSample[0].Value.Uint64()
 		b, _ := json.Marshal(&resp)
 		binary.LittleEndian.PutUint32(hdr[:], uint32(len(b)))
 		out.Write(hdr[:])
@@ -417,6 +421,7 @@ type cdcWorker struct {
 	stderr *cdcTail
 	rpipe  *os.File
 	Deaths int
+	Recycled int
 	// per codec: consecutive deaths before any success, and the last reason
 	deadRuns map[string]int
 	deadWhy  map[string]string
@@ -491,6 +496,13 @@ func (w *cdcWorker) call(req *cdcReq) cdcResp {
 		return cdcResp{Died: "(cached) " + w.deadWhy[req.Codec]}
 	}
 	r := w.call1(req)
+	if r.Died == "" && r.Sys > 1<<30 {
+		// a survived giant allocation keeps its address space mapped for the life of the
+		// process; under ulimit -v the NEXT innocent case would then die of "out of
+		// memory". Start from a fresh worker instead.
+		w.stop()
+		w.Recycled++
+	}
 	if r.Died != "" && !strings.Contains(r.Died, "stack overflow") {
 		w.deadRuns[req.Codec] = -1 << 30 // only unconditional recursion is worth caching
 	} else if r.Died != "" {
